@@ -506,5 +506,13 @@ def replay(chk, data):
     if bad:
         d = out["probe"]["digests"]
         print("first difference:", first_diff(d[0], d[1]) if len(set(shas)) > 1 else first_diff(d[0], fresh["digests"][0]))
+    # the programmatic entry point on the same text, after the history and in a fresh process
+    cli_a, cli_f = out.get("probe", {}).get("cli"), fresh.get("cli")
+    print("run_scriptplan after history:", cli_a)
+    print("run_scriptplan fresh process:", cli_f)
+    if cli_a != cli_f:
+        bad = True
     chk.impl.close()
+    if bad:
+        print(f"VIOLATION property=C12 replay={data.get('_path', '?')}")
     return 1 if bad else 0
